@@ -68,11 +68,11 @@ type getter struct {
 	t0    time.Time
 
 	// scripts (all optional)
-	HeadFn     func(call int, trusted H) (H, error) // overrides Head
-	HeadDelay  time.Duration
-	ByHeightFn func(call int, height uint64) (H, error, bool) // handled=false => default
-	RangeFn    func(call int, from H, to uint64) ([]H, error, bool)
-	RangeDelay func(call int) time.Duration
+	HeadFn             func(call int, trusted H) (H, error) // overrides Head
+	HeadDelay          time.Duration
+	ByHeightFn         func(call int, height uint64) (H, error, bool) // handled=false => default
+	RangeFn            func(call int, from H, to uint64) ([]H, error, bool)
+	RangeDelay         func(call int) time.Duration
 	nHead, nBy, nRange int
 }
 
@@ -301,15 +301,18 @@ func (p *proxyStore) Appends() []appendRec {
 // ---- world ----
 
 type world struct {
-	c     *mon.Case
-	chain *vh.Chain
-	d     *memds.DS
-	st    *store.Store[H]
-	ps    *proxyStore
-	g     *getter
-	sub   *subscriber
-	syn   *hsync.Syncer[H]
+	c       *mon.Case
+	chain   *vh.Chain
+	d       *memds.DS
+	st      *store.Store[H]
+	ps      *proxyStore
+	g       *getter
+	sub     *subscriber
+	syn     *hsync.Syncer[H]
 	started bool
+	// tolerateBad lets a test accept a non-canonical header at the store boundary (a signed one that was
+	// legitimately adopted non-adjacently)
+	tolerateBad func(h H) bool
 }
 
 // newWorld creates a store pre-populated with canonical heights [from, to] (none if to == 0).
@@ -337,6 +340,9 @@ func newWorld(c *mon.Case, chain *vh.Chain, from, to uint64, tip uint64) *world 
 		cancel()
 	}
 	w.ps = &proxyStore{Store: st, chain: chain, onBad: func(h H) {
+		if w.tolerateBad != nil && w.tolerateBad(h) {
+			return
+		}
 		c.Violation("stored-non-canonical/append-at-store-boundary", fmt.Sprintf("Syncer appended non-canonical header %v to the Store", h), nil)
 	}}
 	w.g = newGetter(chain, tip)
@@ -367,6 +373,25 @@ func quiesce() {
 	synctest.Wait()
 	time.Sleep(10 * time.Second)
 	synctest.Wait()
+}
+
+// settle waits for real quiescence: it keeps advancing virtual time until neither the getter nor the
+// store saw any activity during a 10s window (a slow getter keeps a sync alive for many such windows).
+func (w *world) settle() {
+	for i := 0; i < 400; i++ {
+		w.g.mu.Lock()
+		n := len(w.g.calls)
+		w.g.mu.Unlock()
+		h := w.st.Height()
+		quiesce()
+		w.g.mu.Lock()
+		n2 := len(w.g.calls)
+		w.g.mu.Unlock()
+		if n2 == n && w.st.Height() == h {
+			return
+		}
+	}
+	w.c.Inconclusive("no quiescence after 4000s of virtual time")
 }
 
 func (w *world) close() {
